@@ -39,8 +39,12 @@ def op_f(fn, args):
 
 
 def parse_op(op):
+    """generic-API wrappers (esl_<d>_generic_<f>) are judged as the function they forward to"""
     w = op.split()
     kv = dict(x.split("=", 1) for x in w[1:] if "=" in x)
+    if "fn" in kv:
+        kv["fn_raw"] = kv["fn"]
+        kv["fn"] = kv["fn"].replace("_generic_", "_").replace("generic_", "")
     a = [unhex(t) for t in kv.get("a", "").split(",") if t and t != "-"]
     return w[0], kv, a
 
@@ -75,7 +79,7 @@ class C10(Prop):
         "exp_outside_support", "sample_is_inverse_of_deviate",
         "gumbel_cdf_monotone_0_to_1", "gumbel_textbook_laws", "gumbel_code_eq_textbook", "gumbel_code_surv_switches",
         "gumbel_code_invsurv", "wei_textbook_laws", "wei_code_eq_textbook", "wei_outside_support",
-        "gev_textbook_laws", "gev_code_eq_textbook", "gev_gumbel_branch_partial", "gev_outside_support",
+        "gev_textbook_laws", "gev_code_eq_textbook", "gev_code_logsurv", "gev_gumbel_branch_partial", "gev_outside_support",
         "gam_laws_partial", "sxp_laws_partial", "normal_laws_partial", "hxp_cdf_add_surv_partial", "gam_sxp_outside_support")]
     claimed = True
     technique = ("Lean 4 proof about the C functions translated from the working tree on every run (clang-14 AST -> Lean, polymorphic "
@@ -223,6 +227,13 @@ class C10(Prop):
         for x in xs:
             for w in xn:
                 ops.append(op_f(pre + w, [x] + par))
+        # the generic API (x, void *params) forwards to the same functions
+        if fam != "lognormal" and xs:
+            for x in rng.sample(xs, min(3, len(xs))):
+                for w in ("pdf", "cdf", "surv"):
+                    ops.append(op_f(pre + "generic_" + w, [x] + par))
+            if fam != "normal":
+                ops.append(op_f(pre + "generic_invcdf", [rng.choice([0.5, 0.1, 0.9, rng.random()])] + par))
         # derivative triples in the bulk
         if "cdf" in xn and deriv:
             scale = par[1] if fam == "normal" else 1.0 / par[1]
@@ -311,6 +322,10 @@ class C10(Prop):
         for x in xs:
             for w in ("pdf", "logpdf", "cdf", "logcdf", "surv", "logsurv"):
                 ops.append("mix fam=%s fn=%s x=%s %s" % (fam, w, dhex(x), args))
+        for x in rng.sample(xs, min(3, len(xs))):
+            for w in ("generic_pdf", "generic_cdf", "generic_surv"):
+                ops.append("mix fam=%s fn=%s x=%s %s" % (fam, w, dhex(x), args))
+        ops.append("mix fam=%s fn=generic_invcdf x=%s %s" % (fam, dhex(rng.choice([0.5, 0.1, 0.9])), args))
         ops.append("mixsample fam=%s seed=%d k=%d %s" % (fam, rng.choice([1, 42, rng.randrange(1, 2 ** 32)]), rng.choice([1, 4, 9]), args))
         if True:
             for p in (0.5, rng.random(), rng.choice([1e-6, 1e-3, 0.01, 0.1, 0.9, 0.99, 0.9999])):
@@ -378,22 +393,22 @@ class C10(Prop):
 
     def cases(self, ctx):
         rng = ctx.rng
-        n = 160 if ctx.tier == "quick" else 2500
+        n = 120 if ctx.tier == "quick" else 1400
         out = []
         fams = list(self.families_T)
         for i in range(n):
             fam = fams[i % len(fams)]
             par = self.params(fam, rng, canonical=(rng.random() < 0.1))
             out.append(self.make_case(fam, par, rng, "gen%d-%s" % (i, fam)))
-        nm = 60 if ctx.tier == "quick" else 1200
+        nm = 48 if ctx.tier == "quick" else 600
         for i in range(nm):
             fam = self.families_M[i % len(self.families_M)]
             par = self.params(fam, rng, canonical=(rng.random() < 0.15))
             heavy = fam in ("sxp", "gam")
             out.append(self.make_case(fam, par, rng, "gen%d-%s" % (i, fam), n_grid=6 if heavy else 14, n_rand=4 if heavy else 8, deriv=1))
-        for i in range(6 if ctx.tier == "quick" else 60):
+        for i in range(6 if ctx.tier == "quick" else 40):
             out.append(self.make_special_case(rng, "special%d" % i))
-        for i in range(40 if ctx.tier == "quick" else 600):
+        for i in range(30 if ctx.tier == "quick" else 300):
             fam = ("hxp", "mixgev")[i % 2]
             out.append(self.make_mix_case(fam, rng, "mix%d-%s" % (i, fam)))
         return out
@@ -406,6 +421,17 @@ class C10(Prop):
         return all(v is not None for v in vals) and any(math.isfinite(x) and x not in (0.0, 1.0) for v in vals for x in v)
 
     def monitor(self, ctx, case, out):
+        st = self.__dict__.setdefault("mstats", {"ops": {}, "values": {"finite": 0, "zero_or_one": 0, "inf": 0, "nan": 0}})
+        for op, line in zip(case["ops"], out):
+            kind, kv, _ = parse_op(op)
+            key = kind + ":" + (kv.get("fam") + "_" if "fam" in kv else "") + kv.get("fn_raw", "")
+            st["ops"][key] = st["ops"].get(key, 0) + 1
+            for v in parse_out(line) or []:
+                c = "nan" if v != v else "inf" if math.isinf(v) else "zero_or_one" if v in (0.0, 1.0) else "finite"
+                st["values"][c] += 1
+        return self.monitor_inner(ctx, case, out)
+
+    def monitor_inner(self, ctx, case, out):
         ops = case["ops"]
         pts = {}          # (fam, params bits) -> {x: {which: value}}
         widths = {}       # same keys -> width of the closed form's band (conditioning)
@@ -476,6 +502,8 @@ class C10(Prop):
                         continue
                 if fam in ("sxp", "gam") and which == "logpdf":
                     floor = 1e-9            # esl_stats_LogGamma carries log(sqrt(2 pi)) to 9 digits (0.918938533)
+                if not isx and R.mpmath.isfinite(ref):
+                    floor = RELTOL[fam] * abs(float(ref) - a[1])      # a quantile is mu + offset: relative to the offset too
                 why = R.judge(res[0], band, RELTOL[fam], floor)
                 if why:
                     return Failure("monitor", "%s(%s) = %r but the closed form gives %s: %s" % (
@@ -518,11 +546,16 @@ class C10(Prop):
                 fam, _ = R.split_fn(kv["fn"])
                 if us is None or fam is None:
                     continue
-                which = "invsurv" if fam == "exp" else "invcdf"      # esl_exp_Sample uses log(p): p and 1-p are both uniform
                 for u, sx in zip(us, res):
+                    which = "invcdf"
                     band = R.reference_all(fam, "p", [u] + a)[which]
                     ref = band[0]
                     why = R.judge(sx, band, RELTOL[fam])
+                    if why and fam == "exp":     # esl_exp_Sample uses log(u) for log(1-u): u and 1-u are both uniform deviates
+                        which = "invsurv"
+                        band = R.reference_all(fam, "p", [u] + a)[which]
+                        ref = band[0]
+                        why = R.judge(sx, band, RELTOL[fam])
                     if why:
                         return Failure("monitor", "%s with deviate %r returned %r, %s of the deviate is %s: %s" % (
                             kv["fn"], u, sx, which, R.mpmath.nstr(ref, 17), why))
@@ -568,7 +601,7 @@ class C10(Prop):
             for x in xs:
                 v = byx[x]
                 lo, hi = byx.get(x - h), byx.get(x + h)
-                if "pdf" in v and lo and hi and "cdf" in lo and "cdf" in hi and "cdf" in v and 0.02 < v["cdf"] < 0.98 and (x + h) - (x - h) > 0:
+                if "pdf" in v and lo and hi and "cdf" in lo and "cdf" in hi and "cdf" in v and 0.02 < v["cdf"] < 0.98 and (x + h) - (x - h) > 0 and h > abs(x) * 2.0 ** -30:
                     d = (hi["cdf"] - lo["cdf"]) / ((x + h) - (x - h))
                     wd = widths.get((fam, par), {})
                     noise = (wd.get(x - h, {}).get("cdf", 0.0) + wd.get(x + h, {}).get("cdf", 0.0)) / (2 * h)
@@ -577,8 +610,16 @@ class C10(Prop):
         return None
 
     def extra_evidence(self, ctx):
+        st = getattr(self, "mstats", {"ops": {}, "values": {}})
         return {"translated_functions": getattr(self, "tinfo", {}).get("functions", []),
-                "literals_from_source_text": getattr(self, "tinfo", {}).get("literals", [])}
+                "hand_modelled_functions": ["esl_stats_LogGamma", "esl_stats_IncompleteGamma", "esl_stats_erfc (coefficients dumped from source)",
+                                            "esl_vec_DMax", "esl_vec_DLogSum", "esl_hxp_{pdf,logpdf,cdf,logcdf,surv,logsurv,Sample}",
+                                            "esl_mixgev_{pdf,logpdf,cdf,logcdf,surv,logsurv,Sample}", "esl_rnd_DChoose"],
+                "monitor_only_functions": ["esl_sxp_invcdf", "esl_gam_invcdf", "esl_hxp_invcdf", "esl_mixgev_invcdf (bracketing + bisection loops)"],
+                "not_covered": ["esl_sxp_Sample, esl_gam_Sample, esl_lognormal_Sample (esl_rnd_Gamma / esl_rnd_Gaussian not modelled)",
+                                "generic_* wrappers (one-line forwards)", "esl_stats_Psi / Trigamma (used by the fitting code, C11)"],
+                "literals_from_source_text": getattr(self, "tinfo", {}).get("literals", []),
+                "input_distribution": {"ops_by_function": st["ops"], "returned_values": st["values"]}}
 
 
 SPEC = C10()
